@@ -39,6 +39,8 @@ func runC08(r *an.Run) {
 	c08BacktrackingMemoised(r)
 	memoDependencies(r, "R7-backtracking-is-memoised")
 	c08TypedNil(r)
+	failedResultNotUsed(r, "R9-value-of-a-failed-call-is-not-used")
+	c08SliceBounds(r)
 }
 
 func tokenEOF(r *an.Run) int64 {
